@@ -18,6 +18,7 @@ Vocabulary (defined in the lemma files, all executable or plain list functions):
 -/
 import IblVerif.Lemmas.GeometryMeta
 import IblVerif.Lemmas.DenseLayout
+import IblVerif.Lemmas.GeomStagesC08
 
 namespace IblVerif.C08
 open IblVerif.Geometry IblVerif.StableSort IblVerif.Generated
@@ -392,6 +393,45 @@ theorem trace_header_eq (v : Version) (ns : Nat) (g : Geom) (h : denseLayout v n
       sampleShift := some (natCol ((List.range NC).map (shiftOf (adcParams v).1))),
       adc := some (natCol ((List.range NC).map (adcOf (adcParams v).1))) } := by
   simp [traceHeader, h, adcShifts_eq, bind, Except.bind, pure, Except.pure, natCol, List.map_map]
+
+/-! ## the statement program of `geometry_from_meta` (order of the fix-ups, purity) -/
+
+/-- `geometry_from_meta` on a metadata with a site table IS the run of its statement list
+(`GeomStages.stages`: parse → copy → [NP1: 70 − x] → y + 20 → xy2rc | [NP1: −2c + 2 + r mod 2] → rc2xy → ADC columns by position →
+shank split → `ind` → [lexsort on (−col, row, shank) → joint gather of every key]) under the NumPy meaning `GeomStages.step` gives each
+statement — for every metadata, both encodings, every probe version, split or not, sorted or not, errors included.  `Tie/C08.lean`
+proves that the list generated from the source text equals `GeomStages.stages`. -/
+theorem geometry_program (m : Meta) (cm : RawMap) (hcm : mapChannels m.shankMap m.geomMap = .ok (some cm))
+    (sort : Bool) (nc : Nat) :
+    geometryFromMeta m sort nc =
+      match GeomStages.run cm m.major m.np24Shank (GeomStages.stages cm.enc (decide (m.major = some .v1)) sort) with
+      | .error e => .error e
+      | .ok r => .ok (some r) :=
+  GeomStages.geometryFromMeta_eq_run m cm hcm sort nc
+
+/-- Purity: the geometry is a function of the metadata alone.  Whatever an earlier derivation left behind in the variables of
+the program (`cm`, `th`, `sort_keys`, `inds` — any state `st0`), deriving it again returns the same geometry, because every
+variable is re-assigned from the freshly parsed table before it is read; in particular deriving it twice gives equal results. -/
+theorem geometry_program_pure (cm : RawMap) (mv : Option Version) (key : Option Int) (sort : Bool) (st0 : GeomStages.St) :
+    (match (GeomStages.stages cm.enc (decide (mv = some .v1)) sort).foldlM (GeomStages.step cm mv key) st0 with
+      | .error e => (.error e : Except Err (Geom × List Nat))
+      | .ok st => GeomStages.finish st) =
+    GeomStages.run cm mv key (GeomStages.stages cm.enc (decide (mv = some .v1)) sort) :=
+  GeomStages.run_from_any_state cm mv key sort st0
+
+set_option maxRecDepth 100000 in
+/-- The ORDER is part of the meaning (so the tie's order check is not idle): two NP2.4 sites on shanks 1 and 0, key
+`NP2.4_shank = 0`: numbering the sites BEFORE the shank split leaves the parent index 1 in `ind`. -/
+theorem program_order_matters_swapped :
+    (GeomStages.run ⟨.shankMap, [1, 0], [0, 0], [0, 0], [1, 1]⟩ (some .v24) (some 0)
+        [("map_channels", []), ("copy", []), ("rc2xy", []), ("adc_shifts", []), ("ind", []), ("split", []),
+         ("inds_range", [])]).map (·.1.ind) = .ok (some [1]) := by decide +kernel
+
+set_option maxRecDepth 100000 in
+/-- … whereas the program of the source numbers the sites of the split shank from 0. -/
+theorem program_order_matters :
+    (GeomStages.run ⟨.shankMap, [1, 0], [0, 0], [0, 0], [1, 1]⟩ (some .v24) (some 0)
+        (GeomStages.stages .shankMap false false)).map (·.1.ind) = .ok (some [0]) := by decide +kernel
 
 /-! ## non-vacuity -/
 
